@@ -188,4 +188,56 @@ theorem lookupFuelOK_of_check (R : Registry) (h : fuelCheck R = true) : LookupFu
   · omega
   · omega
 
+/-! ### the checkers evaluate in the kernel -/
+
+namespace Ex
+def st (file kw arg : String) (l c : Nat) (subs : List Stmt) : Stmt := .mk kw true arg file l c subs
+
+/-
+module m { prefix p; namespace "urn:m"; import x { prefix q; }
+  grouping g { leaf a { type string; } }
+  container c1 { uses g; }  container c2 { uses p:g; }
+  container c3 { grouping h { leaf b { type string; } } container d { uses h; uses q:xg; } } }
+module x { prefix x; namespace "urn:x"; import m { prefix pm; }
+  grouping xg { leaf xa { type string; } }  container cx { uses pm:g; } }
+-/
+def ty (f n : String) : Stmt := st f "type" n 0 0 []
+def gS : Stmt := st "m" "grouping" "g" 2 3 [st "m" "leaf" "a" 2 14 [ty "m" "string"]]
+def c1 : Stmt := st "m" "container" "c1" 3 3 [st "m" "uses" "g" 3 18 []]
+def c2 : Stmt := st "m" "container" "c2" 3 29 [st "m" "uses" "p:g" 3 44 []]
+def hS : Stmt := st "m" "grouping" "h" 4 18 [st "m" "leaf" "b" 4 29 [ty "m" "string"]]
+def dS : Stmt := st "m" "container" "d" 4 55 [st "m" "uses" "h" 4 69 [], st "m" "uses" "q:xg" 4 77 []]
+def c3 : Stmt := st "m" "container" "c3" 4 3 [hS, dS]
+def impX : Stmt := st "m" "import" "x" 1 41 [st "m" "prefix" "q" 1 52 []]
+def mS : Stmt := st "m" "module" "m" 1 1
+  [st "m" "prefix" "p" 1 12 [], st "m" "namespace" "urn:m" 1 22 [], impX, gS, c1, c2, c3]
+def xgS : Stmt := st "x" "grouping" "xg" 2 3 [st "x" "leaf" "xa" 2 15 [ty "x" "string"]]
+def cx : Stmt := st "x" "container" "cx" 2 45 [st "x" "uses" "pm:g" 2 60 []]
+def impM : Stmt := st "x" "import" "m" 1 41 [st "x" "prefix" "pm" 1 52 []]
+def xS : Stmt := st "x" "module" "x" 1 1
+  [st "x" "prefix" "x" 1 12 [], st "x" "namespace" "urn:x" 1 22 [], impM, xgS, cx]
+def m : Mod := { seq := 0, stmt := mS }
+def x : Mod := { seq := 1, stmt := xS }
+def reg : Registry := { mods := [m, x], modules := [("m", 0), ("x", 1)] }
+
+example : posCheck reg = true := by decide +kernel
+example : refsCheck reg = true := by decide +kernel
+example : fuelCheck reg = true := by decide +kernel
+example : PosWF reg ∧ RefsWF reg ∧ LookupFuelOK reg :=
+  ⟨posWF_of_check _ (by decide +kernel), refsWF_of_check _ (by decide +kernel), lookupFuelOK_of_check _ (by decide +kernel)⟩
+
+-- the checkers do reject: a second grouping at the position of `g`; a prefixed reference that an
+-- enclosing statement literally declares; a nested module statement
+def gDup : Stmt := st "m" "grouping" "g2" 2 3 []
+def regDup : Registry := { mods := [{ seq := 0, stmt := st "m" "module" "m" 1 1 [gS, gDup] }] }
+example : posCheck regDup = false := by decide +kernel
+def litS : Stmt := st "m" "module" "m" 1 1
+  [impX, st "m" "container" "c" 2 3 [st "m" "grouping" "q:xg" 2 20 [], st "m" "uses" "q:xg" 2 40 []]]
+def regLit : Registry := { mods := [{ seq := 0, stmt := litS }] }
+example : refsCheck regLit = false := by decide +kernel
+def regNest : Registry :=
+  { mods := [{ seq := 0, stmt := st "m" "module" "m" 1 1 [st "m" "submodule" "s" 2 3 [st "m" "leaf" "a" 2 20 []]] }] }
+example : refsCheck regNest = false := by decide +kernel
+end Ex
+
 end Goyang.Lemmas.IncludeCheck
